@@ -16,7 +16,7 @@ theorem isDirty_cases (R fuel : Nat) (w : World) (cache : List Nat) (f mx : Nat)
     (h7 : ∀ ch old, f ∉ seen → r.failed = none → r.changed = some ch → ch ≤ mx → isCheckedR r R = false →
       r.stamp = some old → old ≠ readStamp w f →
       P (if r.csum.isSome then .need [f] else .dirty,
-         if readStamp w f = .missing ∧ r.isGenerated then setRec w f { r with isGenerated := false, failed := some 0 } else w,
+         if readStamp w f = .missing ∧ r.isGenerated then setRec w f { r with isGenerated := false, isOverride := false, failed := some 0 } else w,
          cache))
     (h8 : ∀ ch dr w1 c1, f ∉ seen → r.failed = none → r.changed = some ch → ch ≤ mx → isCheckedR r R = false →
       r.stamp = some (readStamp w f) →
@@ -70,7 +70,7 @@ theorem isDirty_cases (R fuel : Nat) (w : World) (cache : List Nat) (f mx : Nat)
   · have e : isDirty false R (fuel + 1) w cache f mx seen pre =
         (if (pre.getD (getRec w R f)).csum.isSome then .need [f] else .dirty,
          if readStamp w f = .missing ∧ (pre.getD (getRec w R f)).isGenerated then
-           setRec w f { (pre.getD (getRec w R f)) with isGenerated := false, failed := some 0 } else w,
+           setRec w f { (pre.getD (getRec w R f)) with isGenerated := false, isOverride := false, failed := some 0 } else w,
          cache) := by
       simp (config := { zeta := true, zetaHave := true }) only [isDirty, hs, if_false, hf, Option.isSome_none,
         Bool.false_eq_true, hc, hgt, hck, hst, hne, if_true, ne_eq, not_false_eq_true]
